@@ -106,9 +106,12 @@ def refactorings(flt):
                 print(f"SKIP    {name}: patch does not apply to HEAD")
                 continue
             alarms = []
-            for p in props:
-                rc, out = run_check(p, d)
-                alarms += [re.sub(r'replay=\S+ ', '', l) for l in out.splitlines() if l.startswith('VIOLATION')]
+            # one load of the tree, every rule once, then every property's verdict (-property ALL)
+            rc, out = run_check('ALL', d)
+            seen = set(re.findall(r'^property=(C\d+) ', out, flags=re.M))
+            if seen != set(props):
+                alarms.append('checker did not report every property: ' + ','.join(sorted(set(props) - seen)))
+            alarms += [re.sub(r'replay=\S+ ', '', l) for l in out.splitlines() if l.startswith('VIOLATION')]
             if alarms:
                 bad += 1
                 print(f"FALSE-ALARM {name}: " + '; '.join(alarms[:3]))
